@@ -86,10 +86,6 @@ Fixpoint fetch_all (f : fs) (cs : list fcall) : fs * list (bool * str) :=
 
 (* ---- harness entry points ---- *)
 Definition mk_call (t : Z * Z * Z) : call := let '(g, e, d) := t in {| gap := g; eps := e; dur := d |}.
-Definition run_C19_rate (api_key : bool) (cs : list (Z * Z * Z)) : val :=
-  let calls := map mk_call cs in
-  let s := run (limit api_key) window calls in
-  VL [VB (forallb call_okb calls); VL [VZs (rev (hist s)); VZs (rev (slept s))]].
 
 Definition mk_fcall (t : option N * N * N * bool * str) : fcall :=
   let '(p, i, e, o, pl) := t in {| f_path := p; f_id := i; f_ext := e; f_overwrite := o; f_payload := pl |}.
@@ -102,11 +98,24 @@ Definition run_C19_cache (f0 : list (N * N * N * str)) (cs : list (option N * N 
    v2 (round 7): the whole client object of sugar/web/_entrez.py - limiter, cache, file names, key switches, failures
    ================================================================================================================= *)
 
-(* ---- rate: the limit is chosen PER CALL (_entrez.py:27 reads self.api_key at every call; api_key is a public attribute) ---- *)
+(* ---- rate: the limit is chosen PER CALL (_entrez.py:27 reads self.api_key at every call; api_key is a public attribute) ----
+   the function before fix a09a4a0: *)
 Definition rstep (s : st) (kc : bool * call) : st := step (limit (fst kc)) window s (snd kc).
 Definition run2 (cs : list (bool * call)) : st := fold_left rstep cs init.
 (* the popleft branch is taken at this call (deque as long as the limit of THIS call) *)
 Definition pops (s : st) (key : bool) : bool := (limit key <=? length (dq s))%nat.
+
+(* ---- wait_before_request as it is since fix a09a4a0 (F53), _entrez.py:26-37:
+        while len(self._request_times) >= requests: prev_time = popleft()      -- trim to the last N stamps, pop the oldest of them
+        if prev_time is not None: ... sleep ...; append(perf_counter())         -- [wait] on the trimmed deque
+   [step]/[wait] above are this function on a deque that is not longer than N (always the case with one key setting, see
+   C19_const_key_is_run); [rstep]/[run2] are the function BEFORE the fix (one popleft only), kept for the record ---- *)
+Definition trim (N : nat) (s : st) : st :=
+  {| dq := skipn (length (dq s) - N) (dq s); now := now s; hist := hist s; slept := slept s |}.
+Definition stepF (N : nat) (W : Z) (s : st) (c : call) : st := step N W (trim N s) c.
+Definition rstepF (s : st) (kc : bool * call) : st := stepF (limit (fst kc)) window s (snd kc).
+Definition runF (cs : list (bool * call)) : st := fold_left rstepF cs init.
+
 
 (* ---- file names: _entrez.py:45  os.path.join(path, seqid + '.' + ext)  (posixpath.join for two arguments) ---- *)
 Definition slash : byte := "/"%byte.
@@ -165,7 +174,7 @@ Definition fetch_one (s : cl) (o : op) (id : str) (a : attempt) : cl * ev :=
   let fn := cache_name o id in
   if need_request (c_fs s) fn (o_ow o) then
     let c := {| gap := c_pend s; eps := a_eps a; dur := a_dur a |} in
-    let r := step (limit (o_key o)) window (c_rate s) c in       (* :54 wait_before_request, :55 requests.get *)
+    let r := stepF (limit (o_key o)) window (c_rate s) c in      (* :58 wait_before_request, :59 requests.get *)
     let start := hd 0 (hist r) in
     let sl := hd 0 (slept r) in
     let mk f' x := ({| c_rate := r; c_pend := 0; c_calls := (o_key o, c) :: c_calls s; c_fs := f' |},
@@ -276,3 +285,15 @@ Definition run_C19_client (f0 : list (str * str))
   VL [VB (forallb op_okb ops); VL (client_vals (cl_init f0) ops)].
 (* the file-name function alone *)
 Definition run_C19_name (path id ext : str) : val := VL [VB true; VS (fname path id ext)].
+
+(* histories of (key setting, call) on the limiter alone *)
+Definition run_C19_fixed (cs : list (bool * (Z * Z * Z))) : val :=
+  let calls := map (fun kc => (fst kc, mk_call (snd kc))) cs in
+  let s := runF calls in
+  VL [VB (forallb (fun kc => call_okb (snd kc)) calls); VL [VZs (rev (hist s)); VZs (rev (slept s))]].
+
+(* one key setting throughout *)
+Definition run_C19_rate (api_key : bool) (cs : list (Z * Z * Z)) : val :=
+  let calls := map mk_call cs in
+  let s := runF (map (pair api_key) calls) in
+  VL [VB (forallb call_okb calls); VL [VZs (rev (hist s)); VZs (rev (slept s))]].
